@@ -1,5 +1,5 @@
 ------------------------------ MODULE LazyGen ------------------------------
 (* Emits, for every pipeline of stage classes up to MaxDepth, the composed need for k = 1..MaxK. *)
 EXTENDS Lazy, IOUtils, SequencesExt
-ASSUME ndJsonSerialize(IOEnv.OUT, SetToSeq({[pipe |-> p, need |-> Bounds(p)] : p \in Pipelines}))
+ASSUME ndJsonSerialize(IOEnv.OUT, SetToSeq({[pipe |-> p, need |-> Bounds(p), bound |-> TolerantBounds(p)] : p \in Pipelines}))
 =============================================================================
